@@ -59,7 +59,15 @@ Inductive case :=
       (allows [dl_b] ms) on one upstream; both UDP replies have TC; the TCP
       server answers every query [delay] ms after reading it with a reply
       derived from that query; observed: what A's and B's callers got *)
-| CAbandon (a b : N * N * N) (dl_a delay dl_b : N) (res_a res_b : ores).
+| CAbandon (a b : N * N * N) (dl_a delay dl_b : N) (res_a res_b : ores)
+  (** [k] queries at the same time, all answered with TC over UDP and, once the
+      TCP server holds all [k] of them on [k] connections, over TCP ([p1_ok]:
+      every caller got the reply to its own query); then, with these [k]
+      connections idle, one more query [q] (TC again): the TCP server reads a
+      query arriving on an old connection and closes it, and answers on new
+      connections.  Observed for [q]: what the caller got, connections
+      accepted, number of queries the TCP server read, all of them equal to [q] *)
+| CStale (k : N) (q : N * N * N) (p1_ok : bool) (res : ores) (new_conns seen_n : N) (seen_same : bool).
 
 (** ** Messages *)
 
@@ -183,6 +191,15 @@ Definition agree_abandon (a b : N * N * N) (res_a res_b : ores) : bool :=
   | _ => false
   end.
 
+Definition agree_stale (k : N) (q : N * N * N) (p1_ok : bool) (res : ores)
+                       (new_conns seen_n : N) (seen_same : bool) : bool :=
+  let qb := timed_query q in
+  let udp := udp_exchange qb k [timed_udp_reply (udp_wire_query qb k) 130] in
+  let t := reuse_stale (N.to_nat k) timed_tcp_reply qb in
+  let '(r, tq) := udp_with_fallback qb udp (fun q' => fst (reuse_stale (N.to_nat k) timed_tcp_reply q')) in
+  p1_ok && seen_same && res_eqb r res && tcp_used tq
+  && (new_conns =? te_conns (snd t)) && (seen_n =? N.of_nat (length (te_seen (snd t)))).
+
 Definition agree (c : case) : bool :=
   match c with
   | CTrunc n seed b2 obs =>
@@ -197,6 +214,7 @@ Definition agree (c : case) : bool :=
     agree_dial url dial servers b2 udp_at tcp_at res intact
   | CDelay d1 d2 deadline cid qn qseed b2 res => agree_delay d1 d2 deadline cid qn qseed b2 res
   | CAbandon a b dl_a delay dl_b res_a res_b => agree_abandon a b res_a res_b
+  | CStale k q p1_ok res new_conns seen_n seen_same => agree_stale k q p1_ok res new_conns seen_n seen_same
   end.
 
 (** ** spec: the property's own reading of the observation, on raw bytes
@@ -280,6 +298,15 @@ Definition spec (c : case) : bool :=
     let '(cid, qn, qseed) := b in
     if delay + 2000 <? dl_b then is_rep res_b (raw_msg cid 132 128 1 (gen_bytes qn qseed ++ gen_bytes 4 cid))
     else true
+    (* the TCP server answers on a new connection: with up to maxRetry + 1 dead
+       idle connections in the way the caller still gets that answer; the server
+       never sees anything but the caller's query *)
+  | CStale k q p1_ok res new_conns seen_n seen_same =>
+    let '(cid, qn, qseed) := q in
+    p1_ok && seen_same &&
+    if k <=? reuse_max_retry + 1 then
+      is_rep res (raw_msg cid 132 128 1 (gen_bytes qn qseed ++ gen_bytes 4 cid)) && (new_conns =? 1)
+    else true
   end.
 
 (** ** non-trivial: TC set somewhere, a flag byte other than the plain
@@ -300,4 +327,5 @@ Definition nontrivial (c : case) : bool :=
   | CDial _ dial _ b2 _ _ _ _ _ => nonempty dial || tc_of b2
   | CDelay d1 d2 _ _ _ _ b2 _ => tc_of b2 && (0 <? d1 + d2)
   | CAbandon a b _ _ _ _ _ => negb (pair_eqb (fst a) (fst b))
+  | CStale k _ _ _ _ _ _ => 0 <? k
   end.
